@@ -333,7 +333,7 @@ Proof.
   destruct (oend =? 0) eqn:E2.
   { destruct partial; [split; [reflexivity | lia]|].
     destruct (iend =? 1); [|split; [reflexivity | lia]].
-    destruct (get srcm 0 =? 0); split; try reflexivity; lia. }
+    destruct (get srcm 0 / 2 ^ ML_BITS =? 0); split; try reflexivity; lia. }
   destruct (iend =? 0) eqn:E3; [split; [reflexivity | lia]|].
   cbv zeta.
   pose proof (run_ok partial dict srcm iend oend lowPrefix rlow dictm dictSize
